@@ -24,7 +24,8 @@ def units(tier):
 
 def strategy(tier, unit):
     return st.fixed_dictionaries({"el": st.integers(0, 93), "s": st.one_of(S.fl(0.0, 2.0), st.sampled_from([0.0, 1.0, 2.0, 0.5])), "ds": S.logfl(1e-6, 1.0),
-                                  "s_as": st.sampled_from(["float", "numpy", "int-if-integral", "array0d"])})
+                                  "s_as": st.sampled_from(["float", "numpy", "int-if-integral", "array0d", "grid"]),
+                                  "sf_first": st.one_of(st.none(), st.tuples(S.fl(-3, 3), S.fl(0, 4)).map(list))})
 
 
 def _f(c, s):
@@ -105,7 +106,24 @@ def check(case, ctx):
     s = case["s"] + 0.0
     s2 = min(2.0, s + case["ds"])
     ctx.nontrivial(el not in ("C", "H", "O"))
+    if case.get("sf_first") is not None:
+        # history: the element was first used in a structure-factor calculation with a dispersion correction
+        fp, fpp = case["sf_first"]
+        atom = structure.atom_entry(label="X1", atomtype=el, pos=[0.1, 0.2, 0.3], adp_type="Uiso", adp=0.01, occ=1.0, symmulti=1)
+        structure.StructureFactor(np.array([1, 0, 0]), [5.0, 6.0, 7.0, 90.0, 90.0, 90.0], "P1", [atom], {el: [fp, fpp]})
+        ctx.event("structure-factor-with-dispersion-first")
     how = case.get("s_as", "float")
+    if how == "grid":
+        # the caller evaluates one (read-only) grid of s values for several elements
+        grid = O.ro(np.linspace(0.0, 2.0, 41))
+        vals = np.asarray(structure.FormFactor(el, grid), float)
+        refv = np.array([_f(c, float(x)) for x in grid])
+        if vals.shape != refv.shape:
+            ctx.fail("FormFactor/array-shape", "%s: FormFactor(array) returned shape %r" % (el, vals.shape))
+        else:
+            ctx.near("FormFactor=formula(array)", float(np.max(np.abs(vals - refv) / np.abs(refv))), 1e-13, "FormFactor/formula/" + el, "%s: FormFactor on an array differs from the formula" % el)
+        ctx.event("array-argument")
+        how = "float"
     sarg = s
     if how == "numpy":
         sarg = np.float64(s)
